@@ -272,7 +272,7 @@ impl InternalObserver {
 //@|         (token.0 != old(self).id || !old(self).alive()) ==> final(self).handlers() == old(self).handlers() && final(self).node_count() == old(self).node_count(), // [rejected-or-dead-no-effect]
 //@|         (token.0 == old(self).id) ==> r is Ok, // [own-token-accepted]
 //@|         (token.0 == old(self).id && old(self).alive()) ==> final(self).handlers() == old(self).handlers().remove(token), // [exactly-that-handler-removed]
-//@|         (token.0 == old(self).id && old(self).state is InUse) ==> final(self).node_count() == old(self).node_count() - 1, // [linked-observer-drops-node-handler-count]
+//@|         (token.0 == old(self).id && old(self).state is InUse) ==> final(self).node_count() == old(self).node_count() - (if old(self).handlers().contains_key(token) { 1int } else { 0int }), // [linked-observer-drops-node-handler-count-iff-a-handler-was-registered-under-the-token]
 //@|         (token.0 == old(self).id && old(self).state is Created) ==> final(self).node_count() == old(self).node_count(), // [unlinked-observer-not-counted]
 //@|         final(self).state == old(self).state && final(self).id == old(self).id && final(self).next_subscriber == old(self).next_subscriber, // [frame]
 //@end
